@@ -194,10 +194,7 @@ func Distance(s, t []float64, L float64) float64 {
 	}
 	if math.IsInf(L, 1) {
 		for i, v := range s {
-			absDiff := math.Abs(t[i] - v)
-			if absDiff > norm {
-				norm = absDiff
-			}
+			norm = math.Max(norm, math.Abs(t[i]-v))
 		}
 		return norm
 	}
